@@ -16,7 +16,7 @@ META = {
     "technique": "Lean 4 proof (inductive invariant with a ghost transfer flag; omega) + replay of real atomic traces with side-count tracking + nesting-depth oracle",
 }
 
-THEOREMS = ["C06.suspend_count_exact", "C06.suspended_iff", "C06.inactive_blocked_iff", "C06.activation_count_exact", "C06.consts"]
+THEOREMS = ["C06.suspend_count_exact", "C06.suspended_iff", "C06.inactive_blocked_iff", "C06.activation_count_exact", "C06.drainer_leaves_runnable_queue_enqueued", "C06.drainer_leaves_dirty", "C06.consts"]
 
 
 def run(ctx):
